@@ -340,6 +340,8 @@ def lowRankTerm (b : Op α) : Op α :=
 
 /-- `LinearOperator.__add__` (base class ladder). -/
 def baseAdd (a b : Op α) : Except Err (Op α) :=
+  -- (d734ac2: `return other + self` = `ZeroLinearOperator.__add__`, which returns `self` when the shapes agree and
+  --  `self.expand(...)` otherwise — the batched statement is `BOp.addZeroRight` in Batch.lean)
   if b.isZero then .ok a
   else if b.isDiag then mkAddedDiag .plain a b
   else if b.isRoot then
@@ -360,7 +362,7 @@ def diagAdd (a b : Op α) : Except Err (Op α) :=
 
 /-- `SumLinearOperator.__add__`. -/
 def sumAdd (a b : Op α) : Except Err (Op α) :=
-  if b.isZero then .ok a
+  if b.isZero then .ok a   -- (d734ac2: `other + self`, as in the base class)
   else if b.isDiag then mkAddedDiag .plain a b
   else if b.isSum then .ok (.sum (a.sumOps ++ b.sumOps))
   else .ok (.sum (a.sumOps ++ [b]))
@@ -478,7 +480,7 @@ def mulMatrix (rootDec : Op α → Op α) (a b : Op α) : Except Err (Op α) :=
   match a with
   | .zero n m => .ok (.zero n m)
   | a =>
-    if b.isZero then .ok b
+    if b.isZero then .ok b   -- (d734ac2: `other.mul(self)`: a Zero of the broadcast shape — `BOp.mulZeroRight` for batches)
     else if a.isTri then
       -- `TriangularLinearOperator._mul_matrix` (be9ba88): Triangular(self.to_dense() * other.to_dense(), upper=self.upper)
       .ok (.tri a.triUpper (.dense a.rows a.cols fun i j => a.denote i j * b.denote i j))
